@@ -102,7 +102,10 @@ def random_history(rng, led, n_blocks, flaw_prob):
 
 def run_chain(c, txs, genesis, hists, procs, tag, all_upto):
     wd = V.workdir(PID, "run_" + tag, fresh=True)
-    chunks = [hists[i::procs] for i in range(procs) if hists[i::procs]]
+    # at most 14 histories per process: the filter service of every history's node keeps that node's Shared alive
+    # until the process ends (≈ 100 MB each)
+    nchunks = max(procs, (len(hists) + 13) // 14)
+    chunks = [hists[i::nchunks] for i in range(nchunks) if hists[i::nchunks]]
     jobs = []
     for ci, chunk in enumerate(chunks):
         f = os.path.join(wd, "in%d.json" % ci)
